@@ -120,7 +120,7 @@ def r2_every_contig_gets_a_buffer(ctx):
     ctx.ob(f.where, "the walk is over the genome's chromosome order", it == "self.chromosome_order()", it, key="C12-R2|order-source")
     early = [n for n in ast.walk(loop.ast) if isinstance(n, (ast.Break, ast.Return))]
     ctx.ob(f.where, "the walk over the genome order never stops early (no break/return): contigs after the last one with data still get a buffer", not early,
-           "; ".join(u(n) for n in early), key="C12-R2|early-exit")
+           "; ".join(u(n) for n in early), key="C12-R2|early-exit", definite=True)
     # every iteration yields exactly once: from loop 'iter' edge back to loop head without a yield => violation
     is_yield = lambda n: n.kind == "stmt" and any(isinstance(x, ast.Yield) for x in ast.walk(n.ast))
     first = [g.nodes[b] for b, l in g.succ[loop.id] if l == "iter"]
@@ -243,8 +243,8 @@ def r3_unknown_and_repeated_names_raise(ctx):
     fall = [_facts_at(g3, r) for r in rs]
     ok1 = any(("(name)in(seen_contig_names)", True) in fs for fs in fall)
     ok2 = any(("(name)in(self._contig_order)", False) in fs for fs in fall)
-    ctx.ob(ss.where, "SynchedStream: a contig that already occurred raises", ok1, "", key="C12-R3|synched-repeat")
-    ctx.ob(ss.where, "SynchedStream: a contig outside the order raises", ok2, "", key="C12-R3|synched-unknown")
+    ctx.ob(ss.where, "SynchedStream: a contig that already occurred raises", ok1, "", key="C12-R3|synched-repeat", definite=True)
+    ctx.ob(ss.where, "SynchedStream: a contig outside the order raises", ok2, "", key="C12-R3|synched-unknown", definite=True)
     adds = [n for n in g3.nodes if n.kind == "stmt" and isinstance(n.ast, ast.Expr) and isinstance(n.ast.value, ast.Call) and u(n.ast.value.func) == "seen_contig_names.add"]
     ys3 = [n for n in g3.nodes if n.kind == "stmt" and any(isinstance(x, ast.Yield) for x in ast.walk(n.ast))]
     loop3 = [n for n in g3.nodes if n.kind == "for" and u(n.ast.iter) == "grouped"][0]
